@@ -71,6 +71,11 @@ CONFIGS = {
     "D3": dict(n_wfs=3, masks=[[[1, 1], [1, 0]], [[0, 1], [1, 1]], [[1, 1], [1, 1]]], D=1.0, sd=[0.5, 0.5, 0.5],
                gsalt=[0, 0, 90000.], gspos=[[0, 0], [30., 0.], [0., -30.]], wl=[500e-9, 500e-9, 589e-9],
                layers=[(0., 0.2, 25.), (12000., 0.5, 100.)]),
+    # many layers (a layer loop that works in blocks shows only above the block length), every argument handed
+    # over as a float64 / int64 ndarray owned by the caller instead of a list
+    "E2": dict(n_wfs=2, masks=[[[1, 1], [1, 0]], [[1, 1], [1, 1]]], D=1.0, sd=[0.5, 0.5],
+               gsalt=[90000., 0], gspos=[[12., -7.], [0., 25.]], wl=[589e-9, 700e-9],
+               layers=[(1500. * k, 0.2 + 0.03 * k, 10. + 5. * (k % 3)) for k in range(10)], forms="ndarray"),
 }
 THREADS = [1, 2, 3, 4]
 
@@ -85,9 +90,9 @@ def BOUNDS(tier):
 def _plan(tier):
     """(config, depth, deviation bound or None=all)"""
     if tier == "quick":
-        return [("A2", 2, None), ("B3", 1, None), ("B3", 2, 2), ("C2", 2, 2), ("D3", 1, 2)]
+        return [("A2", 2, None), ("B3", 1, None), ("B3", 2, 2), ("C2", 2, 2), ("D3", 1, 2), ("E2", 2, 1)]
     return [("A2", 3, 3), ("A2", 2, None), ("B3", 1, None), ("B3", 2, 3), ("C2", 2, None), ("C2", 3, 2),
-            ("D3", 1, 4), ("D3", 2, 2), ("B3", 3, 2)]
+            ("D3", 1, 4), ("D3", 2, 2), ("B3", 3, 2), ("E2", 2, 2), ("E2", 3, 1)]
 
 
 def _tlc_pairs(tier):
@@ -121,6 +126,12 @@ def _make(cfg):
     from aotools.turbulence import slopecovariance as sc
     c = CONFIGS[cfg]
     L = c["layers"]
+    if c.get("forms") == "ndarray":
+        A = numpy.array
+        return sc.CovarianceMatrix(
+            c["n_wfs"], A([_mask(m) for m in c["masks"]]), c["D"], A(c["sd"], dtype=float), A(c["gsalt"], dtype=float),
+            A(c["gspos"], dtype=float), A(c["wl"], dtype=float), len(L), A([l[0] for l in L], dtype=float),
+            A([l[1] for l in L], dtype=float), A([l[2] for l in L], dtype=float), threads=1)
     return sc.CovarianceMatrix(
         c["n_wfs"], [_mask(m) for m in c["masks"]], c["D"], list(c["sd"]), list(c["gsalt"]),
         [list(p) for p in c["gspos"]], list(c["wl"]), len(L), [l[0] for l in L], [l[1] for l in L],
